@@ -30,11 +30,29 @@ def _raise(kind, x):
     raise make_exc(kind, x)
 
 
+_ODD = {}
+
+
+def odd_value(kind, i):
+    """element i of a source with unusual-but-legal values; the same object every time it is asked for (so == is identity-safe)"""
+    if kind is None:
+        return i
+    key = (kind, i)
+    if key not in _ODD:
+        _ODD[key] = {'none': None, 'false': False, 'empty_str': '', 'empty_tuple': (), 'exc_obj': ValueError('data', i),
+                     'stop_obj': StopIteration(i), 'zero': 0, 'type': StopIteration}[kind]
+    return _ODD[key]
+
+
+ODD_KINDS = ['none', 'none', 'none', 'false', 'empty_str', 'empty_tuple', 'exc_obj', 'stop_obj', 'zero', 'type']
+
+
 class Source:
     """Iterator over range(n) with virtual delays and an optional failure position."""
 
-    def __init__(self, sim, n, delays=None, fail=None, infinite=False):
+    def __init__(self, sim, n, delays=None, fail=None, infinite=False, odd=None):
         self.sim = sim
+        self.odd = odd or {}  # {position(str): kind}: elements that are unusual but legal VALUES (None, falsy, exception objects, ...)
         self.n = n
         self.delays = delays
         self.fail = fail  # {'pos': j, 'exc': kind}
@@ -68,6 +86,8 @@ class Source:
         self.pulled += 1
         if self.on_pull is not None:
             self.on_pull(self)
+        if self.odd:
+            return odd_value(self.odd.get(str(i)), i)
         return i
 
 
@@ -292,6 +312,8 @@ class AsyncSource:
         self.pulled += 1
         if self.on_pull is not None:
             self.on_pull(self)
+        if self.odd:
+            return odd_value(self.odd.get(str(i)), i)
         return i
 
 
